@@ -56,6 +56,12 @@ func (k Keeper) RequestRandom(
 ) (types.Request, error) {
 	currentHeight := ctx.BlockHeight()
 	destHeight := currentHeight + int64(blockInterval)
+	if destHeight < currentHeight {
+		return types.Request{}, errorsmod.Wrapf(
+			types.ErrInvalidHeight,
+			"block interval %d overflows the destination height", blockInterval,
+		)
+	}
 
 	// get tx hash
 	txHash := types.SHA256(ctx.TxBytes())
